@@ -35,7 +35,8 @@ type check struct {
 	models      []model
 	trace       string // trace specification module
 	gen         func(g *gen.G, thor bool) []gen.Program
-	batch       int // programs per TLC batch
+	batch       int      // programs per TLC batch
+	builds      []string // build-tag sets under which the programs run; the event logs must be identical (default: the default build only)
 	rule        string
 	assumptions []string
 	req         []string // coverage cells that a run must hit (else the run is vacuous: exit 2)
@@ -96,6 +97,25 @@ var checks = map[string]*check{
 		rule:        "Sqrt of perfect squares r^2 (r of 1..p+2 digits), their neighbours r^2+-1, squares of midpoints (ties), random operands of 1..4000 digits, odd and even exponents incl. the int32 limits, zeros/infinities/negatives; receiver precision 0, smaller, equal, larger than x's; six modes with x's mode different from the receiver's; receiver == x; expected value from the integer-square-root specification and, independently, the squaring-only declarative predicate SqrtOK on the observed root",
 		assumptions: commonAssumptions,
 		req:         []string{"Sqrt:perfect-square", "Sqrt:irrational", "Sqrt:even-exp", "Sqrt:odd-exp", "Sqrt:prec0", "Sqrt:zprec<xprec", "Sqrt:zprec>xprec", "Sqrt:nan", "Sqrt:zero", "Sqrt:inf"},
+	},
+	"C06": {
+		id: "C06", models: []model{}, trace: "Trace_Core", batch: 2,
+		gen: func(g *gen.G, thor bool) []gen.Program {
+			return append(gen.Nat(g, n(thor, 24, 160), n(thor, 40, 120)), gen.BigOps(g, n(thor, 10, 60))...)
+		},
+		rule:        "dec.mul / dec.sqr / dec.div through the verif hooks: operand lengths 1..350 words (1000 in thorough), balanced, unbalanced and 1-3 word multipliers, word alphabet {0, 1, base-1, base-2, base/2, base/10, random}, exact and nearly exact quotients u = q*v (+0..2, +v-1) by patterned divisors, divisors >= 100 words (recursive division), dirty destination buffers, scratch buffers poisoned on get and put, under 8 threshold assignments (Karatsuba 2..40, squaring (2,4) (3,3) (10,50) ...); TLC checks Val(z) = Val(x)*Val(y), u = q*v + r with r < v and normalisation with exact arithmetic and classifies each call by code path; plus Mul/Quo through the public API on the same sizes with lowered thresholds",
+		assumptions: commonAssumptions,
+		req:         []string{"N.mul:basic", "N.mul:karatsuba", "N.mul:karatsuba+unbalanced", "N.mul:mulAddWW", "N.sqr:basicMul", "N.sqr:basicSqr", "N.sqr:karatsubaSqr", "N.sqr:karatsubaSqr+tail", "N.div:divW", "N.div:divBasic", "N.div:divRecursive", "N.div:small", "N.div:exact", "N.div:remainder"},
+	},
+	"C07": {
+		id: "C07", models: []model{}, trace: "Trace_Core", batch: 2,
+		gen: func(g *gen.G, thor bool) []gen.Program {
+			return append(gen.Kernel(g, thor), append(gen.Round(g, n(thor, 300, 4000)), gen.Nat(g, n(thor, 8, 40), 20)...)...)
+		},
+		builds:      []string{"", "decimal_pure_go", "math_big_pure_go"},
+		rule:        "structured enumeration of kernel inputs: vector lengths {0..9,15..17,31..33,63..65,70} (0..70 in thorough) x carry patterns (none, all, alternating, into the last word, random) x destination disjoint / = x / = y for add10VV, sub10VV; carry-run lengths x y in {0,1,base-1,random} for add10VW, sub10VW; shifts 0..18 x words {base-1, 10^k, k*10^s-1, small low digits} for shl10VU, shr10VU; multipliers/divisors {0,1,2,base/2,base-1,10^k,random} for mulAdd10VWW, addMul10VVW, div10VWW; edge and random scalars for mul10WW, mulAdd10WWW, div10W, div10WW; every call runs the build's implementation and the portable Go one, both must satisfy the mathematical post-condition (KernelPost / ScalarPost) and agree; the whole-library programs run under the default, decimal_pure_go and math_big_pure_go builds and the three event logs must be identical",
+		assumptions: append(append([]string{}, commonAssumptions...), "TLC does not read assembly: equivalence is established on the enumerated inputs"),
+		req:         []string{"K:add10VV", "K:sub10VV", "K:add10VW", "K:sub10VW", "K:shl10VU", "K:shr10VU", "K:mulAdd10VWW", "K:addMul10VVW", "K:div10VWW", "K:mul10WW", "K:div10W", "K:div10WW", "K:add10VV:inplace", "K:shr10VU:inplace"},
 	},
 	"C08": {
 		id: "C08", models: []model{}, trace: "Trace_Core", batch: 4,
